@@ -171,6 +171,16 @@ func RunC16(c *Ctx) {
 				base, _, berr := rjson.ReadStringBytes(d, nil)
 				ubase, _, uerr := rjson.UnescapeStringContent(content, nil)
 				c.Rec.Evals(2)
+				// outputs own their memory: with no destination the result may not be a window into the input
+				// (not even an empty one with capacity: the next append would write into the document;
+				// seeded change C18r3-m1)
+				if h.Overlaps(base, d) {
+					c.Rec.Violate(cs, "ReadStringBytes(nil destination) returned memory shared with the input", "ReadStringBytes", "fresh memory", fmt.Sprintf("len=%d cap=%d", len(base), cap(base)))
+				}
+				if h.Overlaps(ubase, d) {
+					c.Rec.Violate(cs, "UnescapeStringContent(nil destination) returned memory shared with the input", "UnescapeStringContent", "fresh memory", fmt.Sprintf("len=%d cap=%d", len(ubase), cap(ubase)))
+				}
+				c.Rec.C("result_vs_input_aliasing_checks")
 				if berr != nil || uerr != nil {
 					return // C06 reports this
 				}
@@ -203,6 +213,9 @@ func RunC16(c *Ctx) {
 			c.Guarded(cs, "StdLibCompatibleStringBytes (append semantics)", func() {
 				base := rjson.StdLibCompatibleStringBytes(d, nil)
 				c.Rec.Evals(1)
+				if h.Overlaps(base, d) {
+					c.Rec.Violate(cs, "StdLibCompatibleStringBytes(nil destination) returned memory shared with its source", "StdLibCompatibleStringBytes", "fresh memory", fmt.Sprintf("len=%d cap=%d", len(base), cap(base)))
+				}
 				for _, dst := range dstGrid(r, len(base)) {
 					prefix := append([]byte(nil), dst...)
 					got := rjson.StdLibCompatibleStringBytes(d, dst)
